@@ -48,7 +48,7 @@ class Prop:
     case_module = "CaseC12"
     case_vo = "theories/Cases/CaseC12.vo"
     run_fn = "run12"
-    shard = 120
+    shard = 40
     rule = ("plain and typed trees: every ordered forest with <= N nodes (N=4 quick, 5 thorough) x label patterns with repeats "
             "(clones at every relative position) x kinds x explicit ids, over str/unicode/object universes, plus seeded random trees "
             "up to 12 nodes; each x key_map in {default, off, custom} x value_map in {default, off, custom, custom-without-kind} x "
@@ -75,7 +75,7 @@ class Prop:
     # ----- generation
     def tree_descs(self, tier, rng):
         nmax = 4 if tier == "quick" else 5
-        per_shape = 3 if tier == "quick" else 5
+        per_shape = 8 if tier == "quick" else 14
         for n in range(0, nmax + 1):
             for shape in H.forests(n):
                 for lab in label_patterns(n, rng, per_shape):
@@ -89,7 +89,7 @@ class Prop:
                     td = dict(typed=typed, univ=univ, nodes=nodes, calc=rng.choice([None, None, None, "name"]))
                     if valid_desc(td):
                         yield td
-        nrand = 60 if tier == "quick" else 500
+        nrand = 120 if tier == "quick" else 600
         for _ in range(nrand):
             n = rng.randint(5, 12)
             shape = H.random_shape(rng, n, deep=rng.choice([0.2, 0.5, 0.8]))
